@@ -37,6 +37,12 @@ CHECKS = {
             "Flat multiset == scenario product, size == advertised, stable mapping; every vector of product(range(nvec)) decoded and compared with its documented meaning (wrap-around, first definition, zero-cost no-op); mask == discovered(target) in every visited state.", "3 C11"),
     "C12": ("8-way lock-step differential under identical seeds (flat index vs parameter vector rendering of each action)",
             "State tensors, rewards, terminal/limit flags, canonical info and step counters equal across all 8 mode combinations after every step; observations differ only by masking and shape.", "3 C12"),
+    "C14": ("differential across repetitions, fresh subprocesses and PYTHONHASHSEED values (canonical fingerprints / trajectory hashes)",
+            "Scenario fingerprints of generate_scenario(params, seed) and of the generated benchmarks, and sha256 hashes of whole seeded trajectories, must be identical twice in-process and in subprocesses started with different hash seeds.", "3 C14"),
+    "C15": ("PBT over the documented generator parameter domain with a field-by-field validity predicate and a deterministic line-count termination budget",
+            "Every generated parameter set must return (within a traced line budget) a scenario with exactly the requested counts, topology, host configurations, definitions, sensitive hosts, firewall and costs.", "3 C15"),
+    "C16": ("witness search on the reference model + replay of the witness on the real environment with forced draws; real-environment closure as fallback",
+            "For every generated parameter set and every shipped file a goal-reaching plan is found and replayed through step() until done=True; unsolvability is only reported from a closure over the real environment.", "3 C16"),
 }
 
 NOT_YET = {}
@@ -79,7 +85,11 @@ def main():
     print(f"{len(checks)} checks, {len(na)} not_applicable")
 
 
-EXTRA_NOTE = {}
+EXTRA_NOTE = {
+    "C14": "Trusted base: canonical fingerprint function (sets sorted), subprocess plumbing. Samples 3 (thorough 8) PYTHONHASHSEED values; bounded parameter domain (<= 14 / 40 hosts).",
+    "C15": "Trusted base: the validity predicate written from the generator's documentation and the property statement; termination = within 2e6 (thorough 5e6) traced line events. Bounded: num_hosts <= 12 (thorough 60), services <= 5 (10).",
+    "C16": "Trusted base: reference model only proposes plans; verdicts come from the real environment (replay or closure). Bounded parameter domain as C15.",
+}
 
 if __name__ == "__main__":
     main()
